@@ -74,7 +74,14 @@ class Report:
         self.floors.append({"rule": rule, "what": what, "count": count, "floor": minimum})
 
     def unmet_floors(self):
-        return [f for f in self.floors if f["count"] < f["floor"]]
+        return [f for f in self.floors if f["count"] < f["floor"]] + list(getattr(self, "deferred", []))
+
+    def undecided(self, rule, what, why):
+        """a rule that could not be evaluated (construct outside the analyser's model): like an unmet floor it makes the run an
+        ANALYSIS-ERROR at the end unless a violation was found elsewhere; the remaining rules are still evaluated"""
+        if not hasattr(self, "deferred"):
+            self.deferred = []
+        self.deferred.append({"rule": rule, "what": "%s could not be evaluated (%s)" % (what, why), "count": 0, "floor": 1})
 
     def info(self, msg):
         self.infos.append(msg)
